@@ -105,7 +105,7 @@ macro_rules! ctr_fronts {
             let c = UfE::<$bs, $par>::with_key(key);
             let mut a = msg;
             let mut core = ctr::CtrCore::<_, ctr::flavors::$flavor>::inner_iv_init(c.clone(), blk::<$bs>(&iv));
-            core.set_block_pos($blk0);
+            core.set_block_pos($blk0 as _);
             core.apply_keystream_blocks(blocks_mut::<$bs>(&mut a));
             let mut b = msg;
             let mut s = ctr::$alias::<UfE<$bs, $par>>::new(&key.into(), blk::<$bs>(&iv));
@@ -138,7 +138,7 @@ macro_rules! belt_fronts {
             let c = UfE::<U16, $par>::with_key(key);
             let mut a = msg;
             let mut core = belt_ctr::BeltCtrCore::inner_iv_init(c.clone(), blk::<U16>(&iv));
-            core.set_block_pos($blk0);
+            core.set_block_pos($blk0 as _);
             core.apply_keystream_blocks(blocks_mut::<U16>(&mut a));
             let mut b = msg;
             let mut s = crate::common::belt_alias::<$par>(key, &iv);
